@@ -5,6 +5,7 @@ import (
 	"crypto/x509"
 	"errors"
 	"fmt"
+	"net/http"
 	"strings"
 	"sync"
 	"time"
@@ -336,3 +337,7 @@ func RouteOf(route string) (pos int, typ string, slot int, part string, ok bool)
 	}
 	return pos, typ, slot, part, typ == "o" || typ == "d"
 }
+
+// DeadClient returns an HTTP client whose transport fails every request (for
+// checks that must not touch the network at all).
+func DeadClient() *http.Client { return netsim.New().Client() }
